@@ -252,7 +252,7 @@ inline /*constexpr*/ void convert(const blocktriple<srcbits, op, bt>& src, cfloa
 			tgt.setbits(raw);
 //			std::cout << "raw bits (all)   " << to_binary(raw) << '\n';
 			if constexpr (isSaturating) {
-				if (tgt.isnan()) {
+				if (tgt.isnan() || tgt.isinf()) { // rounding carried past the largest finite value: saturate
 					if (src.sign()) {
 						tgt.maxneg();	// map back to maxneg
 					}
